@@ -171,8 +171,14 @@ func c04RunPath(cfg c04Config, id string, steps []c04Step, foreign string, share
 			o.Body = string(r.Body)
 		case "notif":
 			body := `{"jsonrpc":"2.0","method":"notifications/initialized"}`
-			if st.Variant%2 == 1 {
+			switch st.Variant % 4 {
+			case 1:
 				body = `{"jsonrpc":"2.0","method":"notifications/roots/list_changed"}`
+			case 2:
+				// a notification that merely bears the name of the handshake request: it is not an initialize request
+				body = `{"jsonrpc":"2.0","method":"initialize","params":{"protocolVersion":"2025-03-26","clientInfo":{"name":"raw","version":"0"},"capabilities":{}}}`
+			case 3:
+				body = `{"jsonrpc":"2.0","id":null,"method":"initialize","params":{"protocolVersion":"2025-03-26","clientInfo":{"name":"raw","version":"0"},"capabilities":{}}}`
 			}
 			r = peer.PostJSON(ctx, url, hdr, []byte(body), st.SSE)
 		case "resp":
@@ -273,8 +279,23 @@ func init() {
 				ID    string    `json:"id"`
 				Steps []c04Step `json:"steps"`
 			} `json:"paths"`
+			Harvest int `json:"harvest"` // only issue that many sessions on one stateful server and report their ids
 		}
 		readInput(&in)
+		if in.Harvest > 0 {
+			hs := httptest.NewServer(c04NewServer(c04Config{Mode: "stateful", Get: true, PostSSE: true}).Handler())
+			ids := []string{}
+			for i := 0; i < in.Harvest; i++ {
+				r := peer.PostJSON(context.Background(), hs.URL+"/mcp", nil, peer.InitRequest(1), i%2 == 0)
+				if id := r.Header.Get("Mcp-Session-Id"); id != "" {
+					ids = append(ids, id)
+				}
+			}
+			closeClientConns(hs)
+			closeTS(hs)
+			writeOutput(map[string]interface{}{"ids": ids})
+			return 0
+		}
 		// an id made by ANOTHER server instance
 		other := httptest.NewServer(c04NewServer(c04Config{Mode: "stateful", Get: true, PostSSE: true}).Handler())
 		fr := peer.PostJSON(context.Background(), other.URL+"/mcp", nil, peer.InitRequest(1), false)
